@@ -65,7 +65,11 @@ def eval_case(case):
 
 
 def activity_case(rng, thorough=False):
-    c = circ.rand_circuit(rng, n_gates=rng.randint(2, 16 if not thorough else 40), p_dangling=0.05)
+    if rng.random() < 0.3:
+        c = circ.xor_tree(rng)        # long waveforms at the ports (capture windows, overflow markers)
+    else:
+        c = circ.rand_circuit(rng, n_gates=rng.randint(2, 16 if not thorough else 40), p_dangling=0.05,
+                              xor_bias=rng.choice([0.0, 0.5, 0.8]), n_in=rng.randint(2, 6))
     n = len(c.lines) + 3
     nacc = rng.randint(1, 4)
     a_ctrl = []
@@ -75,8 +79,8 @@ def activity_case(rng, thorough=False):
         else:
             a_ctrl.append([-1, 0, 0])
     return {'kind': 'activity', 'circuit': base64.b64encode(pickle.dumps(c)).decode(), 'a_ctrl': a_ctrl,
-            'caps': rng.choice([4, 4, 8, 16]), 'dseed': rng.randint(0, 2**31 - 1), 'sseed': rng.randint(0, 2**31 - 1),
-            'sims': rng.choice([1, 2, 3]), 'cuda': rng.random() < 0.4, 'props': rng.choice([1, 1, 2]), 'multi': rng.random() < 0.5,
+            'caps': rng.choice([4, 8, 16, 'skewed', 'skewed', 'perline']), 'dseed': rng.randint(0, 2**31 - 1), 'sseed': rng.randint(0, 2**31 - 1),
+            'sims': rng.choice([1, 2, 3]), 'cuda': rng.random() < 0.3, 'props': rng.choice([1, 1, 2]), 'multi': rng.random() < 0.5,
             'time': rng.choice(['M', '10', '25.5', '40'])}
 
 
@@ -86,7 +90,16 @@ def run_activity(case):
     delays = wc.rand_delays(drng, len(c.lines))
     a_ctrl = np.array(case['a_ctrl'], dtype=np.int32)
     sims_objs = []
-    for caps in (case['caps'], 256):
+    crng = random.Random(case['dseed'] + 3)
+    nn = len(c.lines) + 3
+    s_len = len(c.s_nodes)
+    if case['caps'] == 'skewed':      # small capacities on the low line indices, large ones elsewhere
+        capv = [4 if i < s_len + 2 else crng.choice([16, 20, 24]) for i in range(nn)]
+    elif case['caps'] == 'perline':
+        capv = [crng.choice([4, 8, 12, 16, 24]) for _ in range(nn)]
+    else:
+        capv = case['caps']
+    for caps in (capv, 256):
         srng = random.Random(case['sseed'])
         ws = wc.make_sim(c, delays, case['sims'], c_caps=caps, cuda=case['cuda'], a_ctrl=a_ctrl)
         i, t, f = wc.rand_stim(srng, ws.s_len, case['sims'])
@@ -193,7 +206,7 @@ def corr_activity(ck, n, thorough=False):
 
 def run(ck):
     ck.prove([], TARGETS, theorems())
-    n1, n2, n3 = (600, 800, 40) if ck.tier == 'quick' else (10000, 10000, 500)
+    n1, n2, n3 = (600, 800, 200) if ck.tier == 'quick' else (10000, 10000, 2500)
     corr_capture(ck, n1)
     c03.corr_gate(ck, n2)       # (nrise, nfall) of wave_eval_cpu vs the model, incl. overflow
     corr_activity(ck, n3, ck.tier == 'thorough')
